@@ -146,7 +146,7 @@ fn run_cli(s: &Scratch, tag: &str, args: &[std::ffi::OsString], stdin: &[u8], me
 /// `rrss parse` on a text, output discarded: Some(how it died) when the tool was killed by a signal or panicked.
 /// None when it ended normally (whatever its verdict on the text), when no tool is configured, or on a time-out
 /// (counted by the caller).  Used by C01 for long flat texts: the tool is a plain build of the repository (debug =
-/// no optimisation at all) running on an ordinary main-thread stack.
+/// no optimisation at all) running with a 2 MiB stack, the default of every thread a Rust program spawns.
 pub fn tool_dies_parsing(src: &str) -> Result<Option<String>, &'static str> {
     let Some(bin) = std::env::var_os("VCHECK_RRSS_BIN") else { return Err("no_tool_configured") };
     let s = Scratch::new();
@@ -154,7 +154,18 @@ pub fn tool_dies_parsing(src: &str) -> Result<Option<String>, &'static str> {
     if std::fs::write(&f, src).is_err() {
         return Err("cannot_write_scratch_file");
     }
-    let mut child = match Command::new(bin).arg("parse").arg(&f).current_dir(&s.dir).stdin(Stdio::null()).stdout(Stdio::null()).stderr(Stdio::null()).spawn() {
+    // with the 2 MiB stack every thread spawned by a Rust program has by default (`ulimit -s` applies to the tool's main thread)
+    let mut child = match Command::new("sh")
+        .arg("-c")
+        .arg("ulimit -s 2048; exec \"$0\" parse \"$1\"")
+        .arg(bin)
+        .arg(&f)
+        .current_dir(&s.dir)
+        .stdin(Stdio::null())
+        .stdout(Stdio::null())
+        .stderr(Stdio::null())
+        .spawn()
+    {
         Ok(c) => c,
         Err(_) => return Err("cli_spawn_failed"),
     };
